@@ -479,8 +479,12 @@ pub fn cluster_post(
         // node skipped a slot of the preceding window (otherwise some nodes see a ready parent - and arm
         // their timeouts for this window - long before the leader can start; DESIGN §7 C02 (iii))
         let early_vote = live.iter().any(|i| obs.votes_by_node[*i].iter().any(|v| v.slot.inner() >= first && v.slot.inner() < first + 4 && v.at_ms < t_l));
+        // only skips cast before (or right at) stabilisation make the start ragged: once the network is
+        // synchronous, a skipped preceding window (silent or equivocating Byzantine leader) makes every
+        // node see the ready parent within the delay bound of each other, and the correct leader's
+        // window that follows must still be finalized
         let prev_skipped = (0..n).filter(|i| cfg.roles[*i] == cluster::Role::Correct).any(|i| {
-            obs.votes_by_node[i].iter().any(|v| v.slot.inner() + 4 >= first && v.slot.inner() < first && matches!(v.kind, "skip" | "sf"))
+            obs.votes_by_node[i].iter().any(|v| v.slot.inner() + 4 >= first && v.slot.inner() < first && matches!(v.kind, "skip" | "sf") && v.at_ms < ts + 1_000)
         });
         if early_vote || prev_skipped {
             kernel::probe("c02_windows_disqualified_ragged_start");
